@@ -222,6 +222,17 @@ func (fa *FuncAnalysis) MustFollow(from ssa.Instruction, targets []ssa.Instructi
 	return fa.mustReach(from, targets, func(r *ssa.Return) bool { return !fa.IsErrorExit(r) })
 }
 
+// EntryMustPass: every success path through the function passes one of targets (the first instruction included).
+func (fa *FuncAnalysis) EntryMustPass(targets []ssa.Instruction) []string {
+	first := fa.Fn.Blocks[0].Instrs[0]
+	for _, t := range targets {
+		if t == first {
+			return nil
+		}
+	}
+	return fa.MustFollow(first, targets)
+}
+
 // MustFollowAllExits: same, but every return counts (entry points where errors are not rolled back).
 func (fa *FuncAnalysis) MustFollowAllExits(from ssa.Instruction, targets []ssa.Instruction) []string {
 	return fa.mustReach(from, targets, func(r *ssa.Return) bool { return true })
